@@ -181,4 +181,11 @@ theorem C08_write_set_by_function :
     Gen.sharedWrites_ok = true ∧
     Gen.sharedWrites.all (fun w => loadTimeFunctions.contains w.1 || perCallWrites.contains w) = true := by decide
 
+/-- **C08 (template functions write no package state of the engine) - with ONE recorded exception.** The module's `debug()`
+function assigns `pugjs.AllowDeep` (known finding C08-debug-allowdeep: an unsynchronised write during Render, demonstrated by the
+race detector). Every other assignment to a package variable of pugjs from a template function fails this theorem. -/
+theorem C08_funcs_pkg_writes_only_known :
+    Gen.funcPkgWrites_ok = true ∧
+    Gen.funcPkgWrites.all (fun w => [("debug_func.go:Func", "pugjs.AllowDeep")].contains w) = true := by decide
+
 end Pug.Props.C08
